@@ -470,10 +470,16 @@ def check_property(pid, tier='quick', seed=0, extra=None):
             extra = None
     if extra:
         for fn in extra:
-            try:
-                s = fn(pid, tier, seed)
-            except Exception as e:
-                s = dict(name=getattr(fn, '__name__', 'standin'), status='error', detail=repr(e))
+            s = None
+            for attempt in (1, 2):   # a harness error (time-out under load, transient I/O) gets one fresh retry
+                try:
+                    s = fn(pid, tier, seed)
+                except Exception as e:
+                    s = dict(name=getattr(fn, '__name__', 'standin'), status='error', detail=repr(e))
+                if not s or s.get('status') != 'error':
+                    break
+                if attempt == 1:
+                    print('NOTE: stand-in %s reported a harness error (%s); retrying once' % (s.get('name'), str(s.get('detail'))[:200]))
             if s:
                 standins.append(s)
                 if s.get('status') == 'violation':
